@@ -1,10 +1,10 @@
 #!/bin/bash
-# refacrun.sh : run every check against every refactor facts dir; any VIOLATION is a false alarm
+# refacrun.sh [facts parent dir, default /tmp/refacfacts] : run every check against every refactoring facts dir (<dir>/*_[0-9AB]); any VIOLATION is a false alarm
 cd /verif
 PIDS="C01 C02 C03 C04 C05 C06 C07 C08 C09 C10 C11 C12 C13 C15 C16 C17 C18 C19 C20"
 TMP=$(mktemp -d /tmp/rx.XXXX)
 run() { d=$1; p=$2; VERIF_EVIDENCE_DIR=$TMP/ev.$$ python3 -m sa.main $p --facts $d 2>/dev/null | grep -A1 "^VIOLATION" | grep "rule" | sed "s|^|$(basename $d) $p |" > $TMP/$(basename $d).$p.out; }
 export -f run; export TMP
-(for d in /tmp/refacfacts/*_[1-5]; do [ -f $d/.done ] || continue; for p in $PIDS; do echo "$d $p"; done; done) | xargs -P 10 -L 1 bash -c 'run $0 $1'
+(for d in ${1:-/tmp/refacfacts}/*_[1-5AB]; do [ -f $d/.done ] || continue; for p in $PIDS; do echo "$d $p"; done; done) | xargs -P 10 -L 1 bash -c 'run $0 $1'
 cat $TMP/*.out | cut -c1-330
 rm -rf $TMP
